@@ -41,7 +41,9 @@ theorem sput_of_fed (net : Net) (s : State) (hi : Inv net s) (c : Nat) (pre : Li
     · simp at h
     · exact h
 
-theorem progress_of_inv (net : Net) (wf : WF net) (hub : Unbounded net) (s : State) (hi : Inv net s)
+/-- progress, given that a node holding a data message never blocks everybody (`hput`) -/
+theorem progress_core (net : Net) (wf : WF net) (s : State) (hi : Inv net s)
+    (hput : ∀ x c rest, x < net.nodes.length → s.nodes x = .d (c :: rest) → ∃ a, (step net s a).isSome = true)
     (hnf : ¬ Final s) : ∃ a, (step net s a).isSome = true := by
   obtain ⟨pre, hpre, hj, hp, hcl, hst⟩ := hi.pre
   unfold Final at hnf
@@ -64,7 +66,7 @@ theorem progress_of_inv (net : Net) (wf : WF net) (hub : Unbounded net) (s : Sta
         | cons c r => exact ⟨.put n, by simp [step, hlt, hs]⟩
       | d pend =>
         cases pend with
-        | cons c r => exact ⟨.put n, by simp [step, hlt, hs, room, hub c]⟩
+        | cons c r => exact hput n c r hlt hs
         | nil =>
           -- a channel of `n` on which a sentinel has certainly been put and which `n` has not taken it from
           have hex : ∃ c, c ∈ nd.ins ∧ Fed net c pre ∧ (nd.all = true → c ∈ s.wait n) := by
@@ -112,5 +114,10 @@ theorem progress_of_inv (net : Net) (wf : WF net) (hub : Unbounded net) (s : Sta
             subst this
             rw [hnd] at hmd; cases hmd
             exact absurd (hcw hma) hnw
+
+theorem progress_of_inv (net : Net) (wf : WF net) (hub : Unbounded net) (s : State) (hi : Inv net s)
+    (hnf : ¬ Final s) : ∃ a, (step net s a).isSome = true :=
+  progress_core net wf s hi
+    (fun x c rest hlt hs => ⟨.put x, by simp [step, hlt, hs, room, hub c]⟩) hnf
 
 end Lifecycle
